@@ -108,6 +108,19 @@ def main(machine, argv=None):
     nruns = args.runs or machine.RUNS[tier]
     wall = args.wall or machine.WALL[tier]
     known = load_known(prop)
+    # regression inputs: minimised programs of violations found earlier (each was a
+    # genuine defect, since fixed or listed).  A fixed entry suppresses nothing: if
+    # its program violates again, that is reported like any other violation.
+    regress_results = []
+    rdir = os.path.join(env.VERIF, 'regress')
+    if os.path.isdir(rdir) and not args.first:
+        for fn in sorted(os.listdir(rdir)):
+            if fn.startswith(prop + '-') and fn.endswith('.json'):
+                path = os.path.join(rdir, fn)
+                with open(path) as f:
+                    rp = json.load(f)
+                rr = machine.run(rp, mode='fork')
+                regress_results.append((path, rp, rr))
     tasks = [(i, seed_for(prop, seed, i), tier) for i in range(args.first, args.first + nruns)]
     agg = {}
     results = []
@@ -163,10 +176,25 @@ def main(machine, argv=None):
         else:
             unknown.setdefault(vclass(v), []).append((r, v))
     exit_code = 0
-    for kid, (k, cnt) in sorted(known_hit.items()):
-        print('KNOWN-FINDING: property=%s %s [%s; seen %d times in this batch]' % (prop, k.get('what', ''), kid, cnt))
     replays = []
     leaks = 0
+    for path, rp, rr in regress_results:
+        if rr.get('status') == 'inconclusive':
+            print('HARNESS-ERROR: regression input %s inconclusive' % path)
+            leaks += 1
+            continue
+        for v in rr.get('violations', []):
+            k = match_known(v, known)
+            if k is not None:
+                known_hit.setdefault(k['id'], [k, 0])[1] += 1
+                continue
+            replays.append(path)
+            print('VIOLATION property=%s replay=%s' % (prop, path))
+            print('  (regression input) check=%s entry=%s detail=%s' % (v.get('check'), v.get('entry'),
+                                                                        json.dumps(v.get('detail'), sort_keys=True)[:600]))
+            break
+    for kid, (k, cnt) in sorted(known_hit.items()):
+        print('KNOWN-FINDING: property=%s %s [%s; seen %d times in this batch]' % (prop, k.get('what', ''), kid, cnt))
     if unknown:
         os.makedirs(os.path.join(env.VERIF, 'replays'), exist_ok=True)
         for n, (cls, lst) in enumerate(sorted(unknown.items(), key=lambda kv: str(kv[0]))):
@@ -186,7 +214,7 @@ def main(machine, argv=None):
                 continue
             r, v = confirmed
             prog = r['program']
-            if not args.no_minimise and n < 4:
+            if not args.no_minimise and len(replays) < 12:
                 from simkit import minimise
                 try:
                     prog = minimise.minimise(machine, prog, v, budget_s=machine.MIN_WALL)
